@@ -75,7 +75,7 @@ theorem handle_file_no_output (fs : FS) (a : Args) (name : Path) (h : CwdOK fs a
     ((∃ e, r = .error e) ∧ fs' = fs) ∨
     (IsName (basename name) ∧ fs.pathExists (a.cwd ++ '/' :: basename name) = false ∧
       r = .ok (a.cwd ++ '/' :: basename name, a.cwd ++ '/' :: basename name ++ tmpSuffix) ∧
-      fs' = fs.set (a.cwd ++ '/' :: basename name ++ tmpSuffix) .file) := by
+      fs' = fs.openWrite (a.cwd ++ '/' :: basename name ++ tmpSuffix)) := by
   unfold handleFile at hr
   rcases dest_is_child fs a name h hno with e | ⟨hn, hex, e⟩
   · rw [e] at hr
@@ -208,10 +208,7 @@ theorem output_file_existing_dir (fs : FS) (a : Args) (name : Path) (ho : a.outp
     (a.acceptFile = false ∧ ¬ IsName (basename name) ∧ fs' = fs ∧ ∃ d, r = .ok d ∧ fs.isDir d = true) := by
   have hx : (join2 a.cwd a.outputFile).head? = some '/' := join2_abs hcwd
   have hO : abspath a.proc (join2 a.cwd a.outputFile) = normpath (join2 a.cwd a.outputFile) := abspath_abs _ hx
-  have hex : fs.pathExists (abspath a.proc (join2 a.cwd a.outputFile)) = true := by
-    unfold FS.isDir at hdir
-    unfold FS.pathExists
-    cases hk : fs.kind (abspath a.proc (join2 a.cwd a.outputFile)) <;> simp_all
+  have hex : fs.pathExists (abspath a.proc (join2 a.cwd a.outputFile)) = true := isDir_exists hdir
   have hd : decideDest fs a name =
       confirmOverwrite fs a (abspath a.proc (join2 (join2 a.cwd a.outputFile) (basename name))) true := by
     simp [decideDest, ho, hex, hdir, join3]
@@ -238,9 +235,7 @@ theorem output_file_existing_dir (fs : FS) (a : Args) (name : Path) (ho : a.outp
     · rw [if_neg hexD] at hc
       simp at hc
       refine Or.inr ⟨hc.2.symm, Or.inl hc.1.symm, fun _ => ?_⟩
-      unfold FS.pathExists at hexD
-      unfold FS.isDir
-      cases hk : fs.kind D <;> simp_all
+      exact not_exists_not_isDir (by simpa using hexD)
   rcases candidate_cases a.proc hx (by rw [← hO]; exact hnr) name with ⟨hn, e⟩ | ⟨hn, e⟩ | ⟨hn, e⟩
   · rw [e, ← hO] at hr
     rcases conf _ hr with ⟨h1, h2, _⟩ | ⟨h1, h2, _⟩
@@ -269,10 +264,7 @@ theorem output_file_existing_dir (fs : FS) (a : Args) (name : Path) (ho : a.outp
     `--accept-file` already made `_decide_destname` deal with it -/
 theorem ask_permission_refuses_directory (fs : FS) (a : Args) (d : Path) (hacc : a.acceptFile = false)
     (hd : fs.isDir d = true) : askPermission fs a d = (fs, .error .transferRejected) := by
-  have hex : fs.pathExists d = true := by
-    unfold FS.isDir at hd
-    unfold FS.pathExists
-    cases hk : fs.kind d <;> simp_all
+  have hex : fs.pathExists d = true := isDir_exists hd
   unfold askPermission
   by_cases h2 : answerYes a.answer = true
   · rcases removeExisting_spec fs d with ⟨hf, _⟩ | ⟨_, _, e⟩ | ⟨_, hdd, _⟩
@@ -296,12 +288,12 @@ theorem remove_existing_only_files (fs : FS) (p : Path) :
 /-- … and so no path through `_decide_destname` removes or replaces a directory, for any arguments,
     offered name and file system, whether it returns or raises -/
 theorem never_removes_dir_decide (fs fs' : FS) (a : Args) (name : Path) (r : Except Err Path)
-    (h : decideDest fs a name = (fs', r)) : ∀ p, fs.isDir p = true → fs'.isDir p = true :=
+    (h : decideDest fs a name = (fs', r)) : ∀ p, fs.isRealDir p = true → fs'.isRealDir p = true :=
   decideDest_keepsDirs h
 
 /-- … nor any path through `_handle_file` (including opening the staging file) -/
 theorem never_removes_dir_file (fs fs' : FS) (a : Args) (name : Path) (r : Except Err (Path × Path))
-    (h : handleFile fs a name = (fs', r)) : ∀ p, fs.isDir p = true → fs'.isDir p = true := by
+    (h : handleFile fs a name = (fs', r)) : ∀ p, fs.isRealDir p = true → fs'.isRealDir p = true := by
   unfold handleFile at h
   cases hd : decideDest fs a name with
   | mk fs1 r1 =>
@@ -337,17 +329,17 @@ theorem never_removes_dir_file (fs fs' : FS) (a : Args) (name : Path) (r : Excep
             · have : fs' = fs2 := (congrArg Prod.fst h).symm
               rw [this]; exact k1.trans k2
             · rename_i hc
-              have : fs' = fs2.set (dest ++ tmpSuffix) .file := (congrArg Prod.fst h).symm
+              have : fs' = fs2.openWrite (dest ++ tmpSuffix) := (congrArg Prod.fst h).symm
               rw [this]
               have hnd : fs2.isDir (dest ++ tmpSuffix) = false := by
                 cases hh : fs2.isDir (dest ++ tmpSuffix)
                 · rfl
                 · exact absurd (Or.inl hh) hc
-              exact (k1.trans k2).trans (keepsDirs_set _ hnd)
+              exact (k1.trans k2).trans (keepsDirs_openWrite hnd)
 
 /-- … nor any path through `_handle_directory` -/
 theorem never_removes_dir_directory (fs fs' : FS) (a : Args) (mode name : Path) (r : Except Err Path)
-    (h : handleDirectory fs a mode name = (fs', r)) : ∀ p, fs.isDir p = true → fs'.isDir p = true := by
+    (h : handleDirectory fs a mode name = (fs', r)) : ∀ p, fs.isRealDir p = true → fs'.isRealDir p = true := by
   unfold handleDirectory at h
   split at h
   · have : fs' = fs := (congrArg Prod.fst h).symm
@@ -392,7 +384,7 @@ theorem never_removes_dir_directory (fs fs' : FS) (a : Args) (mode name : Path) 
     that to the source of `_go`.) -/
 theorem never_removes_dir_offer_file (fs fs' : FS) (a : Args) (name : Path) (dropped : Bool)
     (r : Except Err Path) (h : offerFile fs a name dropped = (fs', r)) :
-    ∀ p, fs.isDir p = true → fs'.isDir p = true := by
+    ∀ p, fs.isRealDir p = true → fs'.isRealDir p = true := by
   unfold offerFile at h
   cases hh : handleFile fs a name with
   | mk fs1 r1 =>
@@ -426,7 +418,7 @@ theorem never_removes_dir_offer_file (fs fs' : FS) (a : Args) (name : Path) (dro
 /-- … nor any path through a whole directory offer -/
 theorem never_removes_dir_offer_directory (fs fs' : FS) (a : Args) (mode name : Path) (dropped extracted : Bool)
     (r : Except Err Path) (h : offerDirectory fs a mode name dropped extracted = (fs', r)) :
-    ∀ p, fs.isDir p = true → fs'.isDir p = true := by
+    ∀ p, fs.isRealDir p = true → fs'.isRealDir p = true := by
   unfold offerDirectory at h
   cases hh : handleDirectory fs a mode name with
   | mk fs1 r1 =>
@@ -452,7 +444,7 @@ theorem never_removes_dir_offer_directory (fs fs' : FS) (a : Args) (mode name : 
     as it was; the only thing it can leave behind is the staging file `cwd/basename.tmp` -/
 theorem failed_offer_file_no_output (fs : FS) (a : Args) (name : Path) (dropped : Bool) (h : CwdOK fs a)
     (hno : a.outputFile = []) (fs' : FS) (e : Err) (hr : offerFile fs a name dropped = (fs', .error e)) :
-    fs' = fs ∨ (IsName (basename name) ∧ fs' = fs.set (a.cwd ++ '/' :: basename name ++ tmpSuffix) .file) := by
+    fs' = fs ∨ (IsName (basename name) ∧ fs' = fs.openWrite (a.cwd ++ '/' :: basename name ++ tmpSuffix)) := by
   unfold offerFile at hr
   cases hh : handleFile fs a name with
   | mk fs1 r1 =>
@@ -468,18 +460,24 @@ theorem failed_offer_file_no_output (fs : FS) (a : Args) (name : Path) (dropped 
       · right
         refine ⟨hn, ?_⟩
         rw [← hfs]; exact (congrArg Prod.fst hr).symm
-      · -- the rename cannot fail: the destination does not exist
+      · -- the rename cannot fail: the destination does not exist, the staging file does
         exfalso
-        have hnd : fs1.isDir (a.cwd ++ '/' :: basename name) = false := by
+        have hreal : fs1.isRealDir (a.cwd ++ '/' :: basename name) = false := by
           rw [hfs]
-          unfold FS.pathExists at hex
-          by_cases e2 : a.cwd ++ '/' :: basename name = a.cwd ++ '/' :: basename name ++ tmpSuffix
-          · simp only [FS.isDir, FS.set]
-            rw [if_pos e2]; rfl
-          · simp only [FS.isDir, FS.set]
-            rw [if_neg e2]
-            cases hk : fs.kind (a.cwd ++ '/' :: basename name) <;> simp_all
-        simp [writeFile, hnd] at hr
+          have hs : tmpSuffix = ['.', 't', 'm', 'p'] := by decide
+          have e2 : a.cwd ++ '/' :: basename name ≠ a.cwd ++ '/' :: basename name ++ tmpSuffix := by
+            intro e
+            have := congrArg List.length e
+            rw [hs] at this
+            simp at this
+          have := not_exists_not_real hex
+          unfold FS.isRealDir at this ⊢
+          rw [openWrite_kind_other e2]; exact this
+        obtain ⟨k, hk⟩ := openWrite_kind_self fs (a.cwd ++ '/' :: basename name ++ tmpSuffix)
+        rw [← hfs] at hk
+        unfold writeFile at hr
+        rw [if_neg (by simp [hreal]), hk] at hr
+        simp at hr
 
 /-! ### archives -/
 
@@ -572,6 +570,68 @@ theorem staging_never_clobbers_fails_on_current : ¬ staging_never_clobbers := b
   have e : (handleFile witnessFS witnessArgs "x/../foo".toList).2
       = .ok ("/home/u/foo".toList, "/home/u/foo.tmp".toList) := by decide
   have := h witnessFS witnessArgs "x/../foo".toList (handleFile witnessFS witnessArgs "x/../foo".toList).1
+    "/home/u/foo".toList "/home/u/foo.tmp".toList (by rw [← e])
+  revert this
+  decide
+
+/-! ### symbolic links (`os.path.exists` follows them, `os.rename` and `os.remove` do not) -/
+
+/-- **what HEAD does for a dangling symbolic link at the destination**: `os.path.exists` says "no",
+    so `_decide_destname` does not refuse — it returns the link's own path `cwd/basename` (it never
+    resolves the link: the destination stays the child of the working directory) and touches nothing. -/
+theorem dangling_link_at_destination (fs : FS) (a : Args) (name : Path) (h : CwdOK fs a) (hno : a.outputFile = [])
+    (hn : IsName (basename name)) (hl : fs.kind (a.cwd ++ '/' :: basename name) = some (.link none)) :
+    decideDest fs a name = (fs, .ok (a.cwd ++ '/' :: basename name)) := by
+  have hex : fs.pathExists (a.cwd ++ '/' :: basename name) = false := by simp [FS.pathExists, hl]
+  rcases dest_is_child fs a name h hno with e | ⟨_, _, e⟩
+  · rw [decideDest_no_output fs a name hno] at e
+    have hc := abspath_child a.proc h.norm.abs hn (by rw [h.norm.fix]; exact h.norm.notRoot)
+    rw [h.norm.fix] at hc
+    rw [hc, hex] at e
+    simp at e
+  · exact e
+
+/-- "without `--output-file`, anything that already has the destination's name makes the transfer fail" -/
+def existing_entry_refused : Prop :=
+  ∀ (fs : FS) (a : Args) (name : Path), CwdOK fs a → a.outputFile = [] →
+    fs.lexists (a.cwd ++ '/' :: basename name) = true → (decideDest fs a name).2 = .error .transferRejected
+
+def linkFS : FS :=
+  ⟨fun p => if p = "/home/u".toList ∨ p = "/home".toList then some .dir
+            else if p = "/home/u/latest.log".toList then some (.link none)
+            else if p = "/home/u/foo.tmp".toList then some (.link (some .file)) else none⟩
+
+/-- HEAD does not satisfy it: the user's dangling link `/home/u/latest.log -> vault/2024.log` is not
+    refused … -/
+theorem existing_entry_refused_fails_on_current : ¬ existing_entry_refused := by
+  intro h
+  have := h linkFS witnessArgs "latest.log".toList ⟨⟨by decide, by decide, by decide⟩, by decide, by decide⟩ rfl
+    (by decide)
+  revert this
+  decide
+
+/-- … and the file offer then REPLACES the link by the received regular file (the link is gone; nothing
+    is written where it pointed).  Replayed on the real code by the harness corpus
+    (signature `dangling-symlink-destination-replaced`). -/
+theorem dangling_link_is_replaced_on_current :
+    (offerFile linkFS witnessArgs "latest.log".toList false).2 = .ok "/home/u/latest.log".toList ∧
+    (offerFile linkFS witnessArgs "latest.log".toList false).1.kind "/home/u/latest.log".toList = some .file := by
+  decide
+
+/-- "the staging file is a fresh regular file of the receiver's own" -/
+def staging_is_own_file : Prop :=
+  ∀ (fs : FS) (a : Args) (name : Path) (fs' : FS) (d t : Path),
+    handleFile fs a name = (fs', .ok (d, t)) → fs'.kind t = some .file
+
+/-- HEAD does not satisfy it either: `open(NAME.tmp, "wb")` follows a symbolic link the user has at the
+    staging name — the received bytes go to whatever it points at, anywhere on the system — and the rename
+    then puts that link at the destination.  (Same root as `staging_never_clobbers`; harness signature
+    `tmp-symlink-followed`.) -/
+theorem staging_is_own_file_fails_on_current : ¬ staging_is_own_file := by
+  intro h
+  have e : (handleFile linkFS witnessArgs "foo".toList).2
+      = .ok ("/home/u/foo".toList, "/home/u/foo.tmp".toList) := by decide
+  have := h linkFS witnessArgs "foo".toList (handleFile linkFS witnessArgs "foo".toList).1
     "/home/u/foo".toList "/home/u/foo.tmp".toList (by rw [← e])
   revert this
   decide
